@@ -216,6 +216,65 @@ def check_interleaved(ld, kind, n, b, rngkind, seed, order, res):
             return
 
 
+KEYED_KINDS = ('reshuffle', 'local', 'once', 'reshuffle+catch', 'reshuffle+map+catch',
+               'reshuffle+prefetch1catch', 'local+prefetch1', 'reshuffle+filter')
+
+
+def keyed_dataset(ld, kind, n, b, rngkind, seed):
+    if kind == 'reshuffle+prefetch1catch':
+        return shuffled(ld, 'reshuffle', n, b, rngkind, seed, dict_backed=True).map(
+            _ident).prefetch(1, 2, catch_filter_exception=True)
+    if kind == 'local+prefetch1':
+        return shuffled(ld, 'local', n, b or 2, rngkind, seed, dict_backed=True).prefetch(1, 2)
+    if kind == 'reshuffle+filter':
+        return shuffled(ld, 'reshuffle', n, b, rngkind, seed, dict_backed=True).filter(
+            lambda x: True)
+    return shuffled(ld, kind, n, b, rngkind, seed, dict_backed=True)
+
+
+def check_interleaved_items(ld, kind, n, b, rngkind, seed, order, res, extra_pass=False,
+                            check_perm=True):
+    """Keyed iteration (.items()) of shuffled datasets with several iterators
+    in flight: every yielded pair must carry the example's own key.  When
+    `extra_pass` is set, the underlying dataset is additionally iterated (a new
+    epoch starts) in the middle of the interleaving."""
+    case = {'shuffle': kind, 'n': n, 'b': b, 'rng': rngkind, 'seed': seed,
+            'interleaving': list(order), 'keyed': True, 'extra_pass': extra_pass}
+    k = max(order) + 1
+    res.case(('inter-items', kind, n, b, rngkind, seed, order, extra_pass), n >= 2)
+    try:
+        ds = keyed_dataset(ld, kind, n, b, rngkind, seed)
+        its = [None] * k
+        outs = [[] for _ in range(k)]
+        for step, who in enumerate(order):
+            if its[who] is None:
+                its[who] = iter(ds.items())
+            try:
+                outs[who].append(next(its[who]))
+            except StopIteration:
+                pass
+            if extra_pass and step == len(order) // 2:
+                list(ds)
+    except BaseException as e:
+        res.violation('interleaved-items-raised', case, exc_sig(e),
+                      sig={'shuffle': kind, 'concurrent': True, 'keyed': True})
+        return
+    for out in outs:
+        res.count('keyed_interleaved_iterators_checked')
+        if any(not (isinstance(p, tuple) and len(p) == 2 and p[0] == f'k{p[1]}')
+               for p in out):
+            res.violation('items-mispaired', case, {'outs': outs},
+                          sig={'shuffle': kind, 'concurrent': True, 'keyed': True})
+            return
+        # ('reshuffle' and 'reshuffle+filter' iterate the live reshuffle object:
+        # their permutation clause is the known finding, judged un-keyed above)
+        if check_perm and kind not in ('reshuffle', 'reshuffle+filter') \
+                and not is_perm([v for _, v in out], n):
+            res.violation('not-a-permutation', case, {'outs': outs},
+                          sig={'shuffle': kind, 'concurrent': True, 'keyed': True})
+            return
+
+
 def check_compose(ld, how, kind, n, b, rngkind, seed, res):
     case = {'compose': how, 'shuffle': kind, 'n': n, 'b': b, 'rng': rngkind,
             'seed': seed}
@@ -316,6 +375,14 @@ def run_shard(spec, res):
                     for s in range(max(2, spec['inter_seeds'] // 3)):
                         check_interleaved(ld, kind, n, b, spec['rng'], base + s,
                                           order, res)
+        if kind == 'reshuffle':          # one shard per rng kind does the keyed runs
+            for kk in KEYED_KINDS:
+                for n in range(0, min(spec['inter2_n'], 4) + 1):
+                    for order in interleavings([n + 1, n + 1]):
+                        for s_ in range(max(2, spec['inter_seeds'] // 3)):
+                            for extra in (False, True):
+                                check_interleaved_items(ld, kk, n, 2, spec['rng'],
+                                                        base + s_, order, res, extra)
         res.sample({'shuffle': kind, 'rng': spec['rng'], 'n': 3,
                     'interleaving': [0, 0, 1, 0, 1, 1, 0, 1],
                     'note': 'iterator index of each successive next() call'})
@@ -344,7 +411,11 @@ def finalize(res, tier):
 
 def replay(case, res):
     ld = import_lazy_dataset()
-    if 'interleaving' in case:
+    if case.get('keyed'):
+        check_interleaved_items(ld, case['shuffle'], case['n'], case['b'], case['rng'],
+                                case['seed'], tuple(case['interleaving']), res,
+                                case.get('extra_pass', False))
+    elif 'interleaving' in case:
         check_interleaved(ld, case['shuffle'], case['n'], case['b'], case['rng'],
                           case['seed'], tuple(case['interleaving']), res)
     elif 'compose' in case:
